@@ -84,34 +84,256 @@ def BcpFix (ρ : PAsg) (s : Enc) : Prop :=
   (∀ v b, s.vals.getD v none = some b → ρ v = some b) ∧
   ∀ c ∈ s.clauses, (∃ l ∈ c, ρ.lit l = some true) ∨ (∃ l₁ ∈ c, ∃ l₂ ∈ c, l₁ ≠ l₂ ∧ ρ.lit l₁ = none ∧ ρ.lit l₂ = none)
 
+/-! ## helper lemmas
+
+The inductions over `Form` / `List Form`.  The constructor-level facts are C13 (total models) and
+`OratioProofs/Lemmas/Form.lean` (partial assignments at the propagation fixpoint; `FormL.PAsg`,
+`FormL.plit`, `FormL.BcpFix` there are definitionally equal copies of `PAsg`, `PAsg.lit`, `BcpFix`). -/
+namespace C01L
+open FormL
+
+theorem fresh_inv (n : Nat) : (Enc.fresh n).Inv :=
+  ⟨⟨rfl, fun c hc => (by cases hc), fun e he => (by cases he)⟩, fun e he => (by cases he)⟩
+
+theorem fresh_pinv (n : Nat) : FormL.PInv (Enc.fresh n) := fun e he => by cases he
+
+theorem fresh_nvars (n : Nat) : (Enc.fresh n).nvars = n + 1 := by simp [Enc.fresh, Enc.nvars]
+
+theorem evals_of_map {v g : Lit → Bool} : ∀ (fs : List Form) (ls : List Lit),
+    ls.map g = fs.map (Form.eval v) → ls.all g = Form.evalAll v fs ∧ ls.any g = Form.evalAny v fs
+  | [], ls, h => by
+    cases ls with
+    | nil => exact ⟨rfl, rfl⟩
+    | cons a t => simp at h
+  | f :: fs, ls, h => by
+    cases ls with
+    | nil => simp at h
+    | cons a t =>
+      simp only [List.map_cons, List.cons.injEq] at h
+      obtain ⟨i1, i2⟩ := evals_of_map fs t h.2
+      constructor
+      · show (g a && t.all g) = (f.eval v && Form.evalAll v fs)
+        rw [h.1, i1]
+      · show (g a || t.any g) = (f.eval v || Form.evalAny v fs)
+        rw [h.1, i2]
+
+theorem pmap {ρ : FormL.PAsg} {v : Lit → Bool} : ∀ (fs : List Form) (ls : List Lit),
+    ls.map (plit ρ) = fs.map (fun f => some (f.eval v)) →
+    (∀ x ∈ ls, plit ρ x ≠ none) ∧ ls.map (val ρ) = fs.map (Form.eval v)
+  | [], ls, h => by
+    cases ls with
+    | nil => exact ⟨fun x hx => (by cases hx), rfl⟩
+    | cons a t => simp at h
+  | f :: fs, ls, h => by
+    cases ls with
+    | nil => simp at h
+    | cons a t =>
+      simp only [List.map_cons, List.cons.injEq] at h
+      obtain ⟨i1, i2⟩ := pmap fs t h.2
+      refine ⟨fun x hx => ?_, ?_⟩
+      · simp only [List.mem_cons] at hx
+        rcases hx with rfl | hx
+        · rw [h.1]; simp
+        · exact i1 x hx
+      · simp only [List.map_cons, i2, val_of_some h.1]
+
+/-! ### total models -/
+
+mutual
+theorem encode_total : ∀ (f : Form) (s : Enc), s.Inv → (∀ l ∈ f.atoms, l.var < s.nvars) →
+    (f.encode s).2.Inv ∧ (f.encode s).1.var < (f.encode s).2.nvars ∧ s.Extends (f.encode s).2 ∧
+    s.Refines (f.encode s).2 ∧ ∀ α, Enc.Sat α (f.encode s).2 → α.lit (f.encode s).1 = f.eval α.lit
+  | .atom l, s, h, hr =>
+    ⟨h, hr l (by simp [Form.atoms]), EncL.Extends.refl s, EncL.Refines.refl s, fun _ _ => rfl⟩
+  | .and fs, s, h, hr => by
+    obtain ⟨i1, i2, i3, i4, i5⟩ := encodeL_total fs s h hr
+    obtain ⟨c1, c2, c3, c4, c5⟩ := C13_conj_equiv _ _ i1 i2
+    refine ⟨c1, c2, EncL.Extends.trans i4.1 i3 c4, EncL.Refines.trans i4 c5, fun α hα => ?_⟩
+    show α.lit ((Form.encodeL fs s).2.newConj (Form.encodeL fs s).1).1 = Form.evalAll α.lit fs
+    rw [c3 α hα, (evals_of_map fs _ (i5 α (c5.2 α hα))).1]
+  | .or fs, s, h, hr => by
+    obtain ⟨i1, i2, i3, i4, i5⟩ := encodeL_total fs s h hr
+    obtain ⟨c1, c2, c3, c4, c5⟩ := C13_disj_equiv _ _ i1 i2
+    refine ⟨c1, c2, EncL.Extends.trans i4.1 i3 c4, EncL.Refines.trans i4 c5, fun α hα => ?_⟩
+    show α.lit ((Form.encodeL fs s).2.newDisj (Form.encodeL fs s).1).1 = Form.evalAny α.lit fs
+    rw [c3 α hα, (evals_of_map fs _ (i5 α (c5.2 α hα))).2]
+  | .not f, s, h, hr => by
+    obtain ⟨i1, i2, i3, i4, i5⟩ := encode_total f s h hr
+    refine ⟨i1, i2, i3, i4, fun α hα => ?_⟩
+    show α.lit (f.encode s).1.neg = !f.eval α.lit
+    rw [EncL.lit_neg, i5 α hα]
+  | .iff f g, s, h, hr => by
+    have hrf : ∀ l ∈ f.atoms, l.var < s.nvars := fun l hl => hr l (by simp [Form.atoms, hl])
+    obtain ⟨i1, i2, i3, i4, i5⟩ := encode_total f s h hrf
+    have hrg : ∀ l ∈ g.atoms, l.var < (f.encode s).2.nvars := fun l hl =>
+      Nat.lt_of_lt_of_le (hr l (by simp [Form.atoms, hl])) i4.1
+    obtain ⟨j1, j2, j3, j4, j5⟩ := encode_total g _ i1 hrg
+    obtain ⟨c1, c2, c3, c4, c5⟩ := C13_eq_equiv _ (f.encode s).1 (g.encode (f.encode s).2).1 j1
+      (Nat.lt_of_lt_of_le i2 j4.1) j2
+    refine ⟨c1, c2, EncL.Extends.trans (Nat.le_trans i4.1 j4.1) (EncL.Extends.trans i4.1 i3 j3) c4,
+      EncL.Refines.trans (EncL.Refines.trans i4 j4) c5, fun α hα => ?_⟩
+    show α.lit ((g.encode (f.encode s).2).2.newEq (f.encode s).1 (g.encode (f.encode s).2).1).1 =
+      (f.eval α.lit == g.eval α.lit)
+    have h2 := c5.2 α hα
+    rw [c3 α hα, i5 α (j4.2 α h2), j5 α h2]
+theorem encodeL_total : ∀ (fs : List Form) (s : Enc), s.Inv → (∀ l ∈ Form.atomsL fs, l.var < s.nvars) →
+    (Form.encodeL fs s).2.Inv ∧ InRange (Form.encodeL fs s).2 (Form.encodeL fs s).1 ∧
+    s.Extends (Form.encodeL fs s).2 ∧ s.Refines (Form.encodeL fs s).2 ∧
+    ∀ α, Enc.Sat α (Form.encodeL fs s).2 → (Form.encodeL fs s).1.map α.lit = fs.map (Form.eval α.lit)
+  | [], s, h, _ => ⟨h, fun l hl => (by cases hl), EncL.Extends.refl s, EncL.Refines.refl s, fun _ _ => rfl⟩
+  | f :: fs, s, h, hr => by
+    have hrf : ∀ l ∈ f.atoms, l.var < s.nvars := fun l hl => hr l (by simp [Form.atomsL, hl])
+    obtain ⟨i1, i2, i3, i4, i5⟩ := encode_total f s h hrf
+    have hrg : ∀ l ∈ Form.atomsL fs, l.var < (f.encode s).2.nvars := fun l hl =>
+      Nat.lt_of_lt_of_le (hr l (by simp [Form.atomsL, hl])) i4.1
+    obtain ⟨j1, j2, j3, j4, j5⟩ := encodeL_total fs _ i1 hrg
+    refine ⟨j1, fun l hl => ?_, EncL.Extends.trans i4.1 i3 j3, EncL.Refines.trans i4 j4, fun α hα => ?_⟩
+    · have hl' : l = (f.encode s).1 ∨ l ∈ (Form.encodeL fs (f.encode s).2).1 := by
+        simpa [Form.encodeL] using hl
+      rcases hl' with rfl | hl'
+      · exact Nat.lt_of_lt_of_le i2 j4.1
+      · exact j2 l hl'
+    · show α.lit (f.encode s).1 :: (Form.encodeL fs (f.encode s).2).1.map α.lit = f.eval α.lit :: fs.map (Form.eval α.lit)
+      rw [i5 α (j4.2 α hα), j5 α hα]
+end
+
+/-! ### partial assignments at the propagation fixpoint -/
+
+mutual
+theorem encode_p : ∀ (f : Form) (s : Enc), s.Inv → FormL.PInv s → (∀ l ∈ f.atoms, l.var < s.nvars) →
+    Mono s (f.encode s).2 ∧ FormL.PInv (f.encode s).2 ∧
+    ∀ ρ : FormL.PAsg, FormL.BcpFix ρ (f.encode s).2 → (∀ l ∈ f.atoms, plit ρ l ≠ none) →
+      plit ρ (f.encode s).1 = some (f.eval (val ρ))
+  | .atom l, s, _, hp, _ =>
+    ⟨Mono.refl s, hp, fun ρ _ hd => plit_eq_val (hd l (by simp [Form.atoms]))⟩
+  | .and fs, s, h, hp, hr => by
+    obtain ⟨i1, i2, i3⟩ := encodeL_p fs s h hp hr
+    obtain ⟨_, t2, _⟩ := encodeL_total fs s h hr
+    obtain ⟨c1, c2, c3⟩ := conj_p i2 t2
+    refine ⟨Mono.trans i1 c1, c2, fun ρ hρ hd => ?_⟩
+    obtain ⟨m1, m2⟩ := pmap fs _ (i3 ρ (BcpFix.mono c1 hρ) hd)
+    show plit ρ ((Form.encodeL fs s).2.newConj (Form.encodeL fs s).1).1 = some (Form.evalAll (val ρ) fs)
+    rw [c3 ρ hρ m1, (evals_of_map fs _ m2).1]
+  | .or fs, s, h, hp, hr => by
+    obtain ⟨i1, i2, i3⟩ := encodeL_p fs s h hp hr
+    obtain ⟨_, t2, _⟩ := encodeL_total fs s h hr
+    obtain ⟨c1, c2, c3⟩ := disj_p i2 t2
+    refine ⟨Mono.trans i1 c1, c2, fun ρ hρ hd => ?_⟩
+    obtain ⟨m1, m2⟩ := pmap fs _ (i3 ρ (BcpFix.mono c1 hρ) hd)
+    show plit ρ ((Form.encodeL fs s).2.newDisj (Form.encodeL fs s).1).1 = some (Form.evalAny (val ρ) fs)
+    rw [c3 ρ hρ m1, (evals_of_map fs _ m2).2]
+  | .not f, s, h, hp, hr => by
+    obtain ⟨i1, i2, i3⟩ := encode_p f s h hp hr
+    refine ⟨i1, i2, fun ρ hρ hd => ?_⟩
+    show plit ρ (f.encode s).1.neg = some (!f.eval (val ρ))
+    exact plit_neg_some (i3 ρ hρ hd)
+  | .iff f g, s, h, hp, hr => by
+    have hrf : ∀ l ∈ f.atoms, l.var < s.nvars := fun l hl => hr l (by simp [Form.atoms, hl])
+    obtain ⟨i1, i2, i3⟩ := encode_p f s h hp hrf
+    obtain ⟨t1, t2, _, t4, _⟩ := encode_total f s h hrf
+    have hrg : ∀ l ∈ g.atoms, l.var < (f.encode s).2.nvars := fun l hl =>
+      Nat.lt_of_lt_of_le (hr l (by simp [Form.atoms, hl])) t4.1
+    obtain ⟨j1, j2, j3⟩ := encode_p g _ t1 i2 hrg
+    obtain ⟨_, u2, _, u4, _⟩ := encode_total g _ t1 hrg
+    obtain ⟨c1, c2, c3⟩ := eq_p (a := (f.encode s).1) (b := (g.encode (f.encode s).2).1) j2
+      (Nat.lt_of_lt_of_le t2 u4.1) u2
+    refine ⟨Mono.trans (Mono.trans i1 j1) c1, c2, fun ρ hρ hd => ?_⟩
+    have hρ2 := BcpFix.mono c1 hρ
+    have ha := i3 ρ (BcpFix.mono j1 hρ2) (fun l hl => hd l (by simp [Form.atoms, hl]))
+    have hb := j3 ρ hρ2 (fun l hl => hd l (by simp [Form.atoms, hl]))
+    show plit ρ ((g.encode (f.encode s).2).2.newEq (f.encode s).1 (g.encode (f.encode s).2).1).1 =
+      some (f.eval (val ρ) == g.eval (val ρ))
+    rw [c3 ρ hρ (by rw [ha]; simp) (by rw [hb]; simp), val_of_some ha, val_of_some hb]
+theorem encodeL_p : ∀ (fs : List Form) (s : Enc), s.Inv → FormL.PInv s →
+    (∀ l ∈ Form.atomsL fs, l.var < s.nvars) →
+    Mono s (Form.encodeL fs s).2 ∧ FormL.PInv (Form.encodeL fs s).2 ∧
+    ∀ ρ : FormL.PAsg, FormL.BcpFix ρ (Form.encodeL fs s).2 → (∀ l ∈ Form.atomsL fs, plit ρ l ≠ none) →
+      (Form.encodeL fs s).1.map (plit ρ) = fs.map (fun f => some (f.eval (val ρ)))
+  | [], s, _, hp, _ => ⟨Mono.refl s, hp, fun _ _ _ => rfl⟩
+  | f :: fs, s, h, hp, hr => by
+    have hrf : ∀ l ∈ f.atoms, l.var < s.nvars := fun l hl => hr l (by simp [Form.atomsL, hl])
+    obtain ⟨i1, i2, i3⟩ := encode_p f s h hp hrf
+    obtain ⟨t1, _, _, t4, _⟩ := encode_total f s h hrf
+    have hrg : ∀ l ∈ Form.atomsL fs, l.var < (f.encode s).2.nvars := fun l hl =>
+      Nat.lt_of_lt_of_le (hr l (by simp [Form.atomsL, hl])) t4.1
+    obtain ⟨j1, j2, j3⟩ := encodeL_p fs _ t1 i2 hrg
+    refine ⟨Mono.trans i1 j1, j2, fun ρ hρ hd => ?_⟩
+    show plit ρ (f.encode s).1 :: (Form.encodeL fs (f.encode s).2).1.map (plit ρ) =
+      some (f.eval (val ρ)) :: fs.map (fun f => some (f.eval (val ρ)))
+    rw [i3 ρ (BcpFix.mono j1 hρ) (fun l hl => hd l (by simp [Form.atomsL, hl])),
+      j3 ρ hρ (fun l hl => hd l (by simp [Form.atomsL, hl]))]
+end
+
+end C01L
+
+/-! ## the property -/
+
 /-- total models: the literal of a constraint has the constraint's truth value -/
 theorem C01_encoding_total (n : Nat) (f : Form) (hr : ∀ l ∈ f.atoms, l.var < n + 1) :
     let r := f.encode (Enc.fresh n)
     r.2.Inv ∧ r.1.var < r.2.nvars ∧ (Enc.fresh n).Extends r.2 ∧
-    ∀ α, Enc.Sat α r.2 → α.lit r.1 = f.eval α.lit := by sorry
+    ∀ α, Enc.Sat α r.2 → α.lit r.1 = f.eval α.lit := by
+  have hr' : ∀ l ∈ f.atoms, l.var < (Enc.fresh n).nvars := by rw [C01L.fresh_nvars]; exact hr
+  obtain ⟨i1, i2, i3, _, i5⟩ := C01L.encode_total f (Enc.fresh n) (C01L.fresh_inv n) hr'
+  exact ⟨i1, i2, i3, i5⟩
 
 /-- partial assignments at the propagation fixpoint: once the atoms are decided, the constraint's
     literal is decided and has the constraint's truth value under the atoms' values -/
 theorem C01_tseitin_decided_sound (n : Nat) (f : Form) (hr : ∀ l ∈ f.atoms, l.var < n + 1) (ρ : PAsg)
     (hfix : BcpFix ρ (f.encode (Enc.fresh n)).2) (hdec : ∀ l ∈ f.atoms, ρ.lit l ≠ none) :
-    ρ.lit (f.encode (Enc.fresh n)).1 = some (f.eval (fun l => (ρ.lit l).getD false)) := by sorry
+    ρ.lit (f.encode (Enc.fresh n)).1 = some (f.eval (fun l => (ρ.lit l).getD false)) := by
+  have hr' : ∀ l ∈ f.atoms, l.var < (Enc.fresh n).nvars := by rw [C01L.fresh_nvars]; exact hr
+  exact (C01L.encode_p f (Enc.fresh n) (C01L.fresh_inv n) (C01L.fresh_pinv n) hr').2.2 ρ hfix hdec
 
 /-- hence: an ASSERTED constraint (its literal true) whose atoms are decided is true -/
 theorem C01_asserted_constraint_holds (n : Nat) (f : Form) (hr : ∀ l ∈ f.atoms, l.var < n + 1) (ρ : PAsg)
     (hfix : BcpFix ρ (f.encode (Enc.fresh n)).2) (hdec : ∀ l ∈ f.atoms, ρ.lit l ≠ none)
     (hass : ρ.lit (f.encode (Enc.fresh n)).1 = some true) :
-    f.eval (fun l => (ρ.lit l).getD false) = true := by sorry
+    f.eval (fun l => (ρ.lit l).getD false) = true := by
+  have h := C01_tseitin_decided_sound n f hr ρ hfix hdec
+  rw [hass] at h
+  exact (Option.some.inj h).symm
 
 /-- the same for a list of constraints posted one after the other into the same network (shared
     sub-formulas are fetched from the cache) -/
 theorem C01_all_asserted_constraints_hold (n : Nat) (fs : List Form) (hr : ∀ l ∈ Form.atomsL fs, l.var < n + 1) (ρ : PAsg)
     (hfix : BcpFix ρ (Form.encodeL fs (Enc.fresh n)).2) (hdec : ∀ l ∈ Form.atomsL fs, ρ.lit l ≠ none)
     (hass : ∀ l ∈ (Form.encodeL fs (Enc.fresh n)).1, ρ.lit l = some true) :
-    ∀ f ∈ fs, f.eval (fun l => (ρ.lit l).getD false) = true := by sorry
+    ∀ f ∈ fs, f.eval (fun l => (ρ.lit l).getD false) = true := by
+  have hr' : ∀ l ∈ Form.atomsL fs, l.var < (Enc.fresh n).nvars := by rw [C01L.fresh_nvars]; exact hr
+  have hm : (Form.encodeL fs (Enc.fresh n)).1.map (FormL.plit ρ) =
+      fs.map (fun f => some (f.eval (FormL.val ρ))) :=
+    (C01L.encodeL_p fs (Enc.fresh n) (C01L.fresh_inv n) (C01L.fresh_pinv n) hr').2.2 ρ hfix hdec
+  intro f hf
+  have hmem : some (f.eval (FormL.val ρ)) ∈ (Form.encodeL fs (Enc.fresh n)).1.map (FormL.plit ρ) := by
+    rw [hm]; exact List.mem_map.2 ⟨f, hf, rfl⟩
+  obtain ⟨l, hl, hl2⟩ := List.mem_map.1 hmem
+  have h1 : FormL.plit ρ l = some true := hass l hl
+  rw [h1] at hl2
+  exact (Option.some.inj hl2).symm
 
 /-- why undecided atoms matter (the recorded finding): `¬(a ∧ b)` asserted, nothing decided, is a
     propagation fixpoint although the atoms' default values falsify... nothing forces a choice -/
 example : ∃ ρ : PAsg, BcpFix ρ ((Form.not (.and [.atom ⟨1, true⟩, .atom ⟨2, true⟩])).encode (Enc.fresh 2)).2 ∧
-    ρ 1 = none ∧ ρ 2 = none := by sorry
+    ρ 1 = none ∧ ρ 2 = none := by
+  have hs : ((Form.not (.and [.atom ⟨1, true⟩, .atom ⟨2, true⟩])).encode (Enc.fresh 2)).2 =
+      ⟨[some false, none, none, none],
+       [[⟨1, true⟩, ⟨3, false⟩], [⟨2, true⟩, ⟨3, false⟩], [⟨1, false⟩, ⟨2, false⟩, ⟨3, true⟩]],
+       [(.conj [⟨1, true⟩, ⟨2, true⟩], ⟨3, true⟩)]⟩ := by rfl
+  rw [hs]
+  refine ⟨fun v => if v = 0 then some false else none, ⟨rfl, ?_, ?_⟩, rfl, rfl⟩
+  · intro v b hv
+    match v, hv with
+    | 0, hv => exact hv
+    | 1, hv => cases hv
+    | 2, hv => cases hv
+    | 3, hv => cases hv
+    | _ + 4, hv => cases hv
+  · intro c hc
+    simp only [List.mem_cons, List.not_mem_nil, or_false] at hc
+    rcases hc with rfl | rfl | rfl
+    · exact Or.inr ⟨⟨1, true⟩, by simp, ⟨3, false⟩, by simp, by decide, rfl, rfl⟩
+    · exact Or.inr ⟨⟨2, true⟩, by simp, ⟨3, false⟩, by simp, by decide, rfl, rfl⟩
+    · exact Or.inr ⟨⟨1, false⟩, by simp, ⟨2, false⟩, by simp, by decide, rfl, rfl⟩
 
 end Oratio
